@@ -242,7 +242,7 @@ def _mmasub_setup(V, cfg):
             xold2 = V.reals("xold2", n)
             mma.xold2 = xold2.copy()
     return dict(mma=mma, xmin=xmin, xmax=xmax, w=w, xval=xval, ab=ab, lo_off=lo_off, movev=movev, g=g, dg=dg,
-                offset0=offset0, xold1=xold1, xold2=xold2, asyinit=asyinit)
+                offset0=offset0, xold1=xold1, xold2=xold2, asyinit=asyinit, asyincr=asyincr, asydecr=asydecr)
 
 
 def _run_mmasub(V, cfg, st, use_real_subsolv=False):
@@ -322,6 +322,19 @@ def sc_mmasub(V, P, cfg):
             cl.le("xval-xnew<=move*dx[%d]" % j, xval[j] - xnew[j], lim, "move-limit")
             cl.le("offset>=1/asybound^2[%d]" % j, st["lo_off"], mma.offset[j], "offset-clip")
             cl.le("offset<=asybound[%d]" % j, mma.offset[j], st["ab"], "offset-clip")
+            # Svanberg's rule with the parameters the USER passed: widen by asyincr while a variable moves monotonically,
+            # tighten by asydecr when it oscillates, keep otherwise; then clip.  First two iterations: offset = asyinit.
+            if st["offset0"] is None:
+                want_off = st["asyinit"]
+            elif st["xold2"] is None:
+                want_off = st["offset0"][j]
+            else:
+                zz = (xval[j] - st["xold1"][j]) * (st["xold1"][j] - st["xold2"][j])
+                fac = _ite(zz > 0, st["asyincr"], _ite(zz < 0, st["asydecr"], 1))
+                want_off = _clipv(st["offset0"][j] * fac, st["lo_off"], st["ab"])
+            cl.eq("offset==rule(user asyincr/asydecr)[%d]" % j, mma.offset[j], want_off, "asymptote-rule")
+            cl.eq("low==xval-offset*dx[%d]" % j, low[j], xval[j] - want_off * w[j], "asymptote-rule")
+            cl.eq("upp==xval+offset*dx[%d]" % j, upp[j], xval[j] + want_off * w[j], "asymptote-rule")
         for i in range(m + 1):
             for j in range(n):
                 cl.le("P>=0[%d,%d]" % (i, j), 0, Pm[i, j], "PQ-nonneg")
@@ -357,6 +370,17 @@ def sc_mmasub(V, P, cfg):
         return obs
     cl.discharge(P)
     return obs
+
+
+def _ite(cond, a, b):
+    if isinstance(cond, SB):
+        from symx.scalars import ite
+        return ite(cond, R.of(a), R.of(b))
+    return a if cond else b
+
+
+def _clipv(v, lo, hi):
+    return _ite(v < lo, lo, _ite(v > hi, hi, v))
 
 
 # ================================================================================================ (b) subsolv
